@@ -70,6 +70,12 @@ func isComposite(t types.Type) bool {
 func (e *Exec) newCell(t types.Type) *Cell {
 	e.cellN++
 	c := &Cell{typ: t, id: e.cellN}
+	if nt, ok := t.(*types.Named); ok {
+		if z, ok := e.modelZero(nt); ok { // model types (zzW, zzR) are opaque leaves
+			c.v = z
+			return c
+		}
+	}
 	switch u := t.Underlying().(type) {
 	case *types.Struct:
 		c.elems = make([]*Cell, u.NumFields())
